@@ -50,7 +50,14 @@ CHECKS = {
  'C08': dict(engine='E3-seqbfs', category='model_checking', design='DESIGN.md 5, 7, 9/C08, harness/C08/NOTES.md',
    technique='partition-confluence state exploration of the real streaming cipher (states = stream position per configuration, transitions = crypt of the next c bytes under every alignment/in-place/keystream-only variant, each checked against an independent reference key stream and for context confluence) across a compiler/optimisation build matrix; exhaustive 2^32 sweep of the GOST substitution step',
    text='ChaCha 8/12/20 x 128/256-bit keys x counters around the 2^32 and 2^64 wraps: every (position, chunk, alignment variant) transition up to 4 blocks+1 must emit the reference key stream and leave the same live context as a single call, so every split gives the same stream; one-shot chacha/xchacha/hchacha and the block API likewise; gcc/clang x -O0..-O3 x with/without -fno-strict-aliasing. GOST 28147-89: substitution+rotate over all 2^32 inputs x 6 S-box sets (thorough) for expanded and small tables against a 6-line reference; block encrypt/decrypt/MAC on structural alphabets, all alignments, decrypt inverts encrypt, published vectors.',
-   note='S-box values and ChaCha constants are anchored by the published vectors the header carries and by openssl enc -chacha20 (checked at run time); key/nonce/plaintext values outside the alphabets are not covered; the 32-bit ChaCha path cannot be built in this image.'),
+   note='S-box values and ChaCha constants are anchored by the published vectors the header carries and by openssl enc -chacha20 (checked at run time); key/nonce/plaintext values outside the alphabets are not covered; the 32-bit ChaCha path cannot be built in this image.'), 'C17': dict(engine='E3-seqbfs', category='model_checking', design='DESIGN.md 5, 9/C17, harness/C17/NOTES.md',
+   technique='explicit-state breadth-first search over operation histories of the real INI store (transition = one real ini_buf_parse / ini_val_set* call, state = canonical line list), a list-of-lists reference model and all observers evaluated in every state; one search runs to a fixpoint',
+   text='Three searches (set-only over a small alphabet until no new state appears; parse+set to depth 5-6; a wider mixed alphabet to depth 3-4), each under ASan and under a deterministic in-place-realloc allocator: in every state case-sensitive and case-insensitive lookups for every spelling, section and value enumeration order, calc_size == bytes generated, generation into every smaller capacity fails without writing past it, parse(gen(store)) equivalent to the store.',
+   note='Duplicate (section,name) pairs are not generated (the store keeps duplicates and answers with the first, which has no ordered-map meaning); empty names are outside the API precondition; see harness/C17/NOTES.md.'),
+ 'C18': dict(engine='E4-enum', category='exploration', design='DESIGN.md 6, 9/C18, harness/C18/NOTES.md',
+   technique='small-scope exhaustive enumeration: digit-shape grid of IPv4 addresses, every zero-run shape of IPv6, every port boundary, every output capacity; all strings over an 11-symbol alphabet up to length 6-7 through the parsers; all prefix lengths (thorough: all 2^32 IPv4 addresses) against integer arithmetic, libc inet_pton and an RFC 5952 formatter',
+   text='Formatting must give the conventional text (dotted quad, RFC 5952, brackets with a port), parse back to the same address and port, never write outside any capacity 0..need+10 and report a sufficient size; the parsers must accept the documented spellings with the right result and never return an unrelated address; len<->mask conversions are inverse, truncation and membership agree with integer arithmetic.',
+   note='Lenient acceptance the documentation is silent on is counted, not judged; non-contiguous masks, scope ids, UNIX paths with special characters are outside; see harness/C18/NOTES.md.'),
 }
 
 REASON_WIP = 'check not finished yet in this session (harness under construction; see DESIGN.md section 13)'
